@@ -420,12 +420,42 @@ class ContainerMixin:
 
     def gen_to_seq(self, gen: GenV, line: int) -> SeqV:
         if gen.ifs:
-            raise Unsupported("filtered comprehension over a symbolic sequence into a list")
+            return self.gen_filter_to_seq(gen, line)
         i = z3.Int(self.ctx.fresh_name("q"))
         _, value, _ = self.gen_terms(gen, i)
         et = self.elem_type_of(value)
         arr = z3.Lambda([i], self.pack(value, et))
         return SeqV(arr, self.source_len(gen.source), et)
+
+    def gen_filter_to_seq(self, gen: GenV, line: int) -> SeqV:
+        """[elt for x in source if cond] over a symbolic source of length n. With
+               c(0) = 0,  c(m + 1) = c(m) + (1 if keep(m) else 0)        (kept among the first m)
+        the result `out` has length c(n) and   keep(m) -> out[c(m)] == elt(m);
+        src(j) names the source position of out[j]:  0 <= src(j) < n, keep(src(j)), c(src(j)) == j.
+        These are facts of the list comprehension (order kept, nothing lost, nothing invented); they are
+        assumed, with c, src and out fresh uninterpreted symbols."""
+        ctx = self.ctx
+        i = z3.Int(ctx.fresh_name("q"))
+        cond, value, _ = self.gen_terms(gen, i)
+        in_range = self.bound_element(gen.source, i)[1]
+        et = self.elem_type_of(value)
+        n = self.source_len(gen.source)
+        cnt = z3.Function(ctx.fresh_name("kept"), z3.IntSort(), z3.IntSort())
+        src = z3.Function(ctx.fresh_name("src"), z3.IntSort(), z3.IntSort())
+        out = z3.Const(ctx.fresh_name("filtered[]"), z3.ArraySort(z3.IntSort(), et.sort))
+        packed = self.pack(value, et)
+        j = z3.Int(ctx.fresh_name("q"))
+        ctx.assume(cnt(0) == 0)
+        ctx.assume(z3.ForAll([i], z3.Implies(in_range, z3.And(
+            cnt(i + 1) == cnt(i) + z3.If(cond, 1, 0), cnt(i) >= 0, cnt(i + 1) <= i + 1))))
+        ctx.assume(z3.ForAll([i], z3.Implies(cond, z3.And(z3.Select(out, cnt(i)) == packed, src(cnt(i)) == i,
+                                                          cnt(i) < cnt(n)))))
+        keep_at_src = z3.substitute(cond, (i, src(j)))
+        ctx.assume(z3.ForAll([j], z3.Implies(z3.And(j >= 0, j < cnt(n)), z3.And(
+            src(j) >= 0, src(j) < n, keep_at_src, cnt(src(j)) == j,
+            z3.Select(out, j) == z3.substitute(packed, (i, src(j)))))))
+        ctx.assume(z3.And(cnt(n) >= 0, cnt(n) <= n))
+        return SeqV(out, cnt(n), et)
 
     def gen_to_set(self, gen: GenV, line: int) -> SetV:
         i = z3.Int(self.ctx.fresh_name("q"))
